@@ -491,13 +491,13 @@ def c14_generate(rng, tier):
     seeds = ["0", "1", "2"] if tier == "quick" else [str(i) for i in range(16)]
     for s in a:
         s["_seeds"] = seeds
-    return tag_cmp(a, ["success", "script", "final", "certificate", "arg"])
+    return tag_cmp(a, ["success", "script", "final", "certificate", "arg", "again"])
 
 
 NONTRIVIAL_RULE["C14"] = "non-trivial: n>=3 with a multi-edge or cycle and at least one indebted vertex"
 PROPS["C14"] = {"generate": c14_generate, "strata": algo_strata,
                 "nontrivial": lambda rec: algo_nontrivial(rec) and any(x < 0 for x in rec["scn"]["deg"]),
-                "rule": "GreedyAlgorithm.play on generated connected multigraphs x divisors (debt magnitudes up to 12 so that the 10|V| budget is straddled), each case under 3 (quick) / 16 (thorough) PYTHONHASHSEED values so that the visiting order varies; the certificate is re-checked through the implementation's own CFLaplacian.apply",
+                "rule": "GreedyAlgorithm.play on generated connected multigraphs x divisors (debt magnitudes up to 12 so that the 10|V| budget is straddled), plus long-haul cases needing between one and two budgets; play() is asked twice on the same solver (the second script must still certify the original divisor); each case under 3 (quick) / 16 (thorough) PYTHONHASHSEED values so that the visiting order varies; the certificate is re-checked through the implementation's own CFLaplacian.apply",
                 "theorems": ["success_certificate", "order_irrelevant", "failure_only_if_unwinnable_or_capped", "winnable_has_clearing_script"]}
 
 
@@ -557,6 +557,11 @@ def c17_generate(rng, tier):
                 s.update(op="gonality", strat=False, max=None, _cmp=["gonality"])
             else:
                 s.update(op="lin_equiv", D1=dd, D2=dd2, _cmp=["equiv"])
+                if rng.random() < 0.6:
+                    # the second divisor lives on an equal copy of the graph, presented differently
+                    e2 = [list(e) for e in s["edges"]]
+                    rng.shuffle(e2)
+                    s["edges2"] = [[b, a, k] if rng.random() < 0.5 else [a, b, k] for a, b, k in e2]
             s["_group"] = gid
             s["_seeds"] = seeds
             s["_debt"] = debt
